@@ -17,7 +17,7 @@ import (
 )
 
 func wait(s *ui.State, what string) {
-	deadline := time.Now().Add(20 * time.Second)
+	deadline := time.Now().Add(60 * time.Second)
 	for {
 		snap := s.VerifSnapshot()
 		busy := snap.Mode == ui.VerifLoading || snap.Mode == ui.VerifOpening
@@ -57,7 +57,7 @@ func main() {
 		go func() { s.Update(b); close(done) }()
 		select {
 		case <-done:
-		case <-time.After(20 * time.Second):
+		case <-time.After(60 * time.Second):
 			fmt.Println("WORKOUT-HANG key", b)
 			os.Exit(4)
 		}
